@@ -25,7 +25,7 @@ Record winv (s : wst) : Prop := {
   wi_bsm_len : zlen (w_bsm s) <= 65536 }.
 
 Definition wspec {A} (m : W A) (Q : pool -> A -> Prop) : Prop :=
-  forall s a s', winv s -> m s = OK (a, s') -> winv s' /\ pool_ext (w_pool s) (w_pool s') /\ Q (w_pool s') a.
+  forall s a s', winv s -> m s = WOK (a, s') -> winv s' /\ pool_ext (w_pool s) (w_pool s') /\ Q (w_pool s') a.
 
 (* index i designates, through getter g, the content x — now and in every later pool *)
 Definition refers0 {A} (g : cpool -> Z -> option A) (x : A) (p : pool) (i : Z) : Prop :=
@@ -56,13 +56,13 @@ Proof. intros (Hi & Hw & H) He Ha. apply Ha; auto. Qed.
 
 (* ---- running a writer ---- *)
 Lemma bind_ok {A B} (m : W A) (f : A -> W B) s r s' :
-  bind m f s = OK (r, s') -> exists a s1, m s = OK (a, s1) /\ f a s1 = OK (r, s').
-Proof. unfold bind. destruct (m s) as [[a s1]| |]; try discriminate. intros H. exists a, s1. split; [reflexivity|exact H]. Qed.
-Lemma ret_ok {A} (a : A) s r s' : ret a s = OK (r, s') -> r = a /\ s' = s.
+  bind m f s = WOK (r, s') -> exists a s1, m s = WOK (a, s1) /\ f a s1 = WOK (r, s').
+Proof. unfold bind. destruct (m s) as [[a s1]|c|]; try discriminate. intros H. exists a, s1. split; [reflexivity|exact H]. Qed.
+Lemma ret_ok {A} (a : A) s r s' : ret a s = WOK (r, s') -> r = a /\ s' = s.
 Proof. unfold ret. intros [= <- <-]. split; reflexivity. Qed.
-Lemma lift_res_ok {A} (x : res A) s r s' : lift_res x s = OK (r, s') -> x = Ok r /\ s' = s.
+Lemma lift_res_ok {A} c (x : res A) s r s' : lift_res c x s = WOK (r, s') -> x = Ok r /\ s' = s.
 Proof. unfold lift_res. destruct x; [|discriminate]. intros [= <- <-]. split; reflexivity. Qed.
-Lemma lift_out_ok {A} (x : out A) s r s' : lift_out x s = OK (r, s') -> x = OK r /\ s' = s.
+Lemma lift_out_ok {A} c (x : out A) s r s' : lift_out c x s = WOK (r, s') -> x = OK r /\ s' = s.
 Proof. unfold lift_out. destruct x; try discriminate. intros [= <- <-]. split; reflexivity. Qed.
 
 Lemma wspec_ret {A} (a : A) (Q : pool -> A -> Prop) : (forall p, Q p a) -> wspec (ret a) Q.
@@ -79,9 +79,9 @@ Proof.
   destruct (H2 a (w_pool s1) HQ1 _ _ _ Hi1 Hf) as (Hi2 & He2 & HQ2).
   split; [exact Hi2|split; [eauto with pext|apply HQ2, He2]].
 Qed.
-Lemma wspec_lift_res {A} (x : res A) (Q : pool -> A -> Prop) : (forall a p, x = Ok a -> Q p a) -> wspec (lift_res x) Q.
+Lemma wspec_lift_res {A} c (x : res A) (Q : pool -> A -> Prop) : (forall a p, x = Ok a -> Q p a) -> wspec (lift_res c x) Q.
 Proof. intros H s r s' Hi Hr. apply lift_res_ok in Hr as [-> ->]. split; [exact Hi|split; [apply pool_ext_refl|apply H; reflexivity]]. Qed.
-Lemma wspec_lift_out {A} (x : out A) (Q : pool -> A -> Prop) : (forall a p, x = OK a -> Q p a) -> wspec (lift_out x) Q.
+Lemma wspec_lift_out {A} c (x : out A) (Q : pool -> A -> Prop) : (forall a p, x = OK a -> Q p a) -> wspec (lift_out c x) Q.
 Proof. intros H s r s' Hi Hr. apply lift_out_ok in Hr as [-> ->]. split; [exact Hi|split; [apply pool_ext_refl|apply H; reflexivity]]. Qed.
 
 (* lists *)
